@@ -86,7 +86,7 @@ pub fn build_restrictions<'n>(restriction: Node<'n, 'n>) -> Restrictions {
     let enumeration = restriction
         .children()
         .filter(|n| n.is_element() && n.tag_name().name() == "enumeration")
-        .map(|n| n.attribute("value").unwrap().to_string())
+        .filter_map(|n| n.attribute("value").map(ToString::to_string))
         .collect::<Vec<String>>();
 
     if !enumeration.is_empty() {
